@@ -18,10 +18,16 @@ EXPLANATION = (
     "Sonic's bound check, InvalidParameters in the linear-code setup/trim, DegreeIsZero / InvalidNumberOfVariables in "
     "the KZG10 and PST13 setups, the aborting assertions of MultilinearPC). R5p: in the trims that take a list of "
     "enforced bounds no refusal condition is computed from first()/last() of the caller's own (unsorted) list - "
-    "only of a sorted copy or of every element. Positive controls: the same detectors must "
+    "only of a sorted copy or of every element. R9n: in every literal of a key / parameter type, a field that is an "
+    "exact copy of a field of another crate struct which has a like-named field is a copy of that like-named field "
+    "(`beta_h: pp.beta_h`, never `beta_h: pp.h`) - 153 such copies in 35 literals today, no deviant one. R1p: in the "
+    "loops of `trim` and `prepare` that run over (a part of) a parameter, a carried variable holding scheme data is an "
+    "accumulator read after the loop - the table built for one enforced bound does not start from what the previous "
+    "bound left in a scratch buffer. Positive controls: the same detectors must "
     "find a draw and a generator() call in KZG10::setup. Pairing consistency of the SRS, exact power windows and the "
     "doubling tables are runtime facts and are not decided.")
-RULE = ("instances = 2 transparency rows + 7 trims x {no draw, no fresh generator} + refusal rows + positive controls")
+RULE = ("instances = 2 transparency rows + 7 trims x {no draw, no fresh generator} + refusal rows + positive controls + "
+        "one name-agreement instance per key literal")
 
 PC = T.PC
 K = "kzg10::KZG10"
@@ -49,6 +55,26 @@ def run(rep, ctx, tier):
         rep.add("R2", "%s:no-draw" % key, not draws,
                 "no randomness is drawn in the transparent setup" if not draws else
                 "randomness is drawn at %s in a transparent setup" % draws[0][2]["span"], draws[0][2]["span"] if draws else b.span)
+    # R9n: a key field copied from a like-named field of the parameters (or of another key) is copied from that field
+    from ..rules import nameagree as R9N
+    n_sites, n_same = R9N.run(rep, ctx, "R9n")
+    rep.count("R9n key literals", n_sites)
+    rep.count("R9n like-named copies", n_same)
+    if n_sites < 20 or n_same < 80:
+        rep.add("R9n", "floor", False, "only %d key literals with %d like-named field copies found (counted 35 / 153; fail closed)" % (n_sites, n_same), None)
+    # R1p: the per-bound / per-power work of `trim` and `prepare` starts from a clean slate for every element: in their
+    # loops over (a part of) a parameter, a carried variable holding scheme data is an accumulator read after the loop
+    from ..rules import carried as R1P
+    nl = nc = 0
+    for b in sorted(f.bodies.values(), key=lambda x: x.id):
+        if b.kind != "Closure" and b.name in ("prepare", "trim") and b.span and (b.impl_trait or b.self_adt):
+            a, c_ = R1P.run(rep, ctx, "%s@%s" % (b.name, (b.self_adt or "?").replace("::data_structures", "").rsplit("::", 1)[-1] + ("" if b.impl_trait else "(inherent)")),
+                            [b.id], b.self_adt, "R1p", item_types=None)
+            nl += a
+            nc += c_
+    rep.count("R1p loops", nl)
+    if nl < 3:
+        rep.add("R1p", "per-item-fresh:floor", False, "only %d parameter-driven loops found in trim / prepare (counted 4; fail closed)" % nl, None)
     # purity of trim
     trims = [("%s.trim" % sk, f.find1("trim", self_adt=S[sk]["adt"], trait=PC), S[sk]["adt"]) for sk in S]
     trims.append(("multilinear.trim", f.find1("trim", self_adt=ML, trait=""), None))
